@@ -103,7 +103,11 @@ contract(K + 'CompactCacheBase._get_bundle_fname_and_offset', props=['C05', 'C09
              'result[1][0] == tile_coord[0] // 128 * 128 and result[1][1] == tile_coord[1] // 128 * 128',
              # the name is cache_dir / L<level> / R<row block, hex>C<column block, hex>
              """result[0] == pjoin(self.cache_dir, 'L' + fmt0d(2, tile_coord[2]),
-                                   'R' + fmt0x(4, tile_coord[1] // 128 * 128) + 'C' + fmt0x(4, tile_coord[0] // 128 * 128))"""],
+                                   'R' + fmt0x(4, tile_coord[1] // 128 * 128) + 'C' + fmt0x(4, tile_coord[0] // 128 * 128))""",
+             # the same statement through the ghost `bname` (opaque for the callers: the bulk-dispatch proofs only need
+             # equality of names, not their structure; revealed here, where the name is computed)
+             'result[0] == bname(self, tile_coord)'],
+         reveal=['bname'],
          must_fail="result[1][0] == tile_coord[0]")
 
 lemma('bundle_name_injective', ['C05'],
@@ -119,7 +123,7 @@ lemma('bundle_name_injective', ['C05'],
 
 # ---- bulk dispatch: the single-bundle fast path is taken only if ALL concerned tiles live in ONE bundle file -------------
 ghost('bname', ['cache', 'c'], """pjoin(cache.cache_dir, 'L' + fmt0d(2, c[2]), 'R' + fmt0x(4, c[1] // 128 * 128)
-                                 + 'C' + fmt0x(4, c[0] // 128 * 128))""")
+                                 + 'C' + fmt0x(4, c[0] // 128 * 128))""", opaque=True)
 TF = {'stored': 'bool', 'coord': 'opt[tuple[int,int,int]]', 'source': 'opt[opaque]'}
 SET_INV = [
     'len(bundle_files) >= 0',
